@@ -102,8 +102,10 @@ func genCfgOp(rc *core.RunCtx, srv *server.Server) cfgOp {
 			c.LocationLabels = []string{"zone", "rack"}
 			c.IsolationLevel = []string{"zone", "rack"}[s.Choose(2, "v")]
 		case 3:
+			// not a location label: a label that is simply absent, and near misses of a present one (letter case,
+			// prefix, surrounding blank) that a looser comparison would let through
 			c.LocationLabels = []string{"zone", "rack"}
-			c.IsolationLevel = "host"
+			c.IsolationLevel = []string{"host", "Zone", "RACK", "zon", "rack ", " zone", "zone,rack"}[s.Choose(7, "v")]
 			op.invalid = "isolation level that is not a location label"
 		case 4:
 			c.LocationLabels = nil
